@@ -231,7 +231,7 @@ func (d *driver) collectBases() []base {
 			if err != nil || info.IsDir() {
 				return nil
 			}
-			if strings.HasSuffix(p, ".php") || strings.HasSuffix(p, ".zy") {
+			if strings.HasSuffix(p, ".php") || strings.HasSuffix(p, ".zy") || strings.HasSuffix(p, ".html") {
 				paths = append(paths, p)
 			}
 			return nil
@@ -245,6 +245,9 @@ func (d *driver) collectBases() []base {
 			rel, _ := filepath.Rel(d.e.Repo, p)
 			bs = append(bs, base{Name: "corpus:" + rel, Src: b})
 		}
+	}
+	for _, t := range templates {
+		bs = append(bs, base{Name: "tmpl:" + t.name, Src: []byte(t.src)})
 	}
 	for i, src := range genPrograms(d.e) {
 		bs = append(bs, base{Name: fmt.Sprintf("gen:%d", i), Src: []byte(src)})
